@@ -85,7 +85,16 @@ func genMachine(r *rng, failDen int) Step {
 	if r.chance(3, 4) {
 		st.Inv = []Step{}
 		if failDen > 0 && r.chance(1, 2) {
-			st.Inv = append(st.Inv, Step{Op: "failif", Pred: Pred{Typ: "ctr", K: int64(r.between(5, 80))}, Kind: r.intn(nFailKinds), Site: 5})
+			pr := Pred{Typ: "ctr", K: int64(r.between(5, 80))}
+			if r.chance(1, 3) {
+				// data dependent: may already fail the very first check, before any action has run
+				pr = hashPred(r, r.between(2, 12))
+			}
+			st.Inv = append(st.Inv, Step{Op: "failif", Pred: pr, Kind: r.intn(nFailKinds), Site: 5})
+		}
+		if r.chance(1, 5) {
+			// the invariant itself skips (data dependent): that makes the whole test case invalid, it is not an action that skipped
+			st.Inv = append(st.Inv, Step{Op: "skipif", Pred: hashPred(r, r.between(3, 40))})
 		}
 	}
 	return st
@@ -95,7 +104,7 @@ func genMachine(r *rng, failDen int) Step {
 func judgeTrace(inv *Inv, names map[string]bool, hasInv bool) string {
 	expectCheck := hasInv
 	dead, pendingNF, inAct, inCheck := false, false, false, false
-	started := false
+	started, skippedInCheck := false, false
 	for i, e := range inv.Trace {
 		bad := func(msg string) string {
 			lo := i - 6
@@ -104,7 +113,12 @@ func judgeTrace(inv *Inv, names map[string]bool, hasInv bool) string {
 			}
 			return fmt.Sprintf("%s (event %d %q; context %v)", msg, i, e, inv.Trace[lo:i+1])
 		}
+		if skippedInCheck {
+			return bad("the test case went on after its invariant had skipped (a skip in the invariant makes the test case invalid)")
+		}
 		switch {
+		case inCheck && strings.HasPrefix(e, "skip "):
+			skippedInCheck = true
 		case e == "check>":
 			if !started && !hasInv {
 				return bad("an invariant ran although none was supplied")
@@ -237,6 +251,15 @@ func c08Run(t *testing.T, sc Scenario, res *Result) {
 		m := genMachine(r, failDen)
 		certainlyStuck := false
 		if sc.Family == "stuck" {
+			var keep []Step
+			for _, is := range m.Inv {
+				if is.Op != "skipif" {
+					keep = append(keep, is)
+				}
+			}
+			if m.Inv != nil {
+				m.Inv = append([]Step{}, keep...) // a stuck machine has to be reported as such: no invalid cases through the invariant
+			}
 			// no action can run: from the start, or once the counter passes a bound
 			bound := int64(-1)
 			if r.chance(1, 2) {
@@ -262,7 +285,11 @@ func c08Run(t *testing.T, sc Scenario, res *Result) {
 			}
 		}
 		p := &Prog{Seed: sc.Seed, Steps: []Step{m}}
-		if r.chance(1, 3) {
+		invHashed := false
+		for _, is := range m.Inv {
+			invHashed = invHashed || is.Pred.Typ == "hash"
+		}
+		if r.chance(1, 3) || invHashed {
 			p.Steps = append([]Step{{Op: "draw", GX: gxInt(r, gxOpts{}), Label: "pre"}}, p.Steps...)
 		}
 		p.Desc = ""
@@ -285,6 +312,20 @@ func c08Run(t *testing.T, sc Scenario, res *Result) {
 				c, a, _ := completedActions(inv)
 				res.count("actions_completed", int64(c))
 				res.count("action_attempts", int64(a))
+				for _, e := range inv.Trace {
+					if strings.HasPrefix(e, "act> ") {
+						break
+					}
+					if strings.HasPrefix(e, "signal ") {
+						res.inc("traces_falsified_by_the_initial_check")
+						break
+					}
+				}
+				for j, e := range inv.Trace {
+					if strings.HasPrefix(e, "skip ") && j > 0 && inv.Trace[j-1] == "check>" {
+						res.inc("traces_ended_by_a_skip_in_the_invariant")
+					}
+				}
 				if c := judgeTrace(inv, names, m.Inv != nil); c != "" {
 					res.violate(sc, "c08/"+firstWords(c, 5), c, map[string]any{"program": p.Desc, "steps": steps, "phase": inv.phase(), "tb": tbBrief})
 					return
